@@ -36,6 +36,10 @@ func H_C11_SelfTestVectors() {
 		got := streamtypes.CalculateDuration(sdk.NewCoin("testdenom", sdk.NewIntFromUint64(v.amt)), v.rate)
 		rt.Assert("INV.selftest.CalculateDuration=repo-test-vector", got == v.want)
 	}
+	// boundary vector of our own: a quotient whose fractional part is within 0.5e-18 of the next
+	// integer (only reachable with 18-decimal tokens) must still be floored
+	edge, _ := sdk.NewIntFromString("399999999999999999999")
+	rt.Assert("INV.selftest.CalculateDuration-floors-at-the-18-decimal-boundary", streamtypes.CalculateDuration(sdk.NewCoin("testdenom", edge), 4000000000000000000) == 99)
 	now := AnyBlockTime("now")
 	type claimVec struct {
 		zeroAfter  int64 // deposit-zero time = now + zeroAfter seconds
